@@ -311,6 +311,12 @@ func runC03(r *Report, tier string) {
 				if !p[sigParam] || !subset(p, "0", sigParam) {
 					okSig = false
 				}
+				// a primitive that takes the signature bytes themselves gets the
+				// parameter itself: no re-sliced, padded or otherwise rebuilt copy
+				// (whose acceptance would no longer be the received bytes')
+				if len(ps.sig) == 1 && pc.Args[i].String() != "$"+sigParam {
+					okSig = false
+				}
 			}
 			o.check(okKey && okMsg && okSig, "accepting fact "+name+" with key=receiver field, message=param, signature from signature param",
 				fmt.Sprintf("primitive %s is fed key=%s msg=%s (key from receiver:%v, message is the content/digest parameter:%v, signature args only from the signature parameter:%v)", name, pc.Args[ps.key], pc.Args[ps.msg], okKey, okMsg, okSig))
@@ -422,6 +428,8 @@ func runC03(r *Report, tier string) {
 	checkGatesOnly(r)
 	r.rule("R19.3", "(shared with C19) decoders keep no window into the caller's buffer: what Verify reads later is what was received.")
 	checkInputNotRetained(r, "R19.3")
+	r.rule("R02.4", "(shared with C02) nobody outside the decoders rewrites the retained raw header bytes of a value reached through a pointer: verification after decoding sees the protected bytes as received.")
+	checkRawBucketWriters(r, "R02.4")
 }
 
 // exitID names an exit without line numbers: ordinal among the function's
